@@ -263,7 +263,7 @@ func engineC28(c *vctx) error {
 	}
 
 	// ---- systematic: every pattern of <= 2 components from the full alphabet x a few paths ----
-	sysPaths := []string{"/a", "/a/b", "/b/a/b", "a/b", "/", "/ab/a", "/*/b"}
+	sysPaths := []string{"/a/b", "/b/a/b", "/*/b"}
 	if c.thorough() {
 		for _, c1 := range c28PatComps {
 			for _, c2 := range append([]string{"\x00"}, c28PatComps...) {
